@@ -159,7 +159,9 @@ def run_shard(args):
     m = re.search(r"M\s*=\s*(\[.*?\])\s*:\s*list", out, re.S)
     if not m:
         return shard, None, "cannot parse: " + out[-2000:], time.time() - t0
-    pairs = [(int(a), int(b)) for a, b in re.findall(r"\(\s*(\d+)\s*,\s*(\d+)\s*\)", m.group(1))]
+    pairs = [(int(a), int(b)) for a, b in re.findall(r"\(\s*(\d+)(?:%\w+)?\s*,\s*(\d+)(?:%\w+)?\s*\)", m.group(1))]
+    if not pairs and m.group(1).strip("[] \n\t"):
+        return shard, None, "cannot parse a non-empty mismatch list: " + m.group(1)[:300], time.time() - t0
     return shard, pairs, "", time.time() - t0
 
 
